@@ -17,7 +17,7 @@ import (
 func init() { Registry["C08"] = c08; Registry["C09"] = c09 }
 
 func c08(c *core.Ctx) map[string]interface{} {
-	c.Explanation = "Static pairing check of the generated NAS codec (C08), on the AST + types of all 45 message files. Decided: (R8.dispatch) each of the 44 message-type constants has exactly one case in the decode and one in the encode switch of its family, the decode case allocates New<X> into field <X> and calls Decode<X>, the encode case calls Encode<X> of the same message, both switches end in an error default, an unknown EPD is an error; (R8.mand) the mandatory part of Encode<X> and Decode<X> is the same sequence of (IE, Len/Value) tokens, covers every non-pointer field of the struct in declaration order, and every length-prefixed buffer is sized (SetLen) before it is read; (R8.opt) every optional IE has exactly one `if a.F != nil` block in Encode<X> and one case in Decode<X> keyed by its own <X><F>Type constant, the two sides use the same format (half-octet / TV / TLV), the constructor is New<F>, length-prefixed fixed arrays are sliced by Len on both sides, IEI constants are pairwise distinct within a message and half-octet IEIs are 8..15 while full IEIs are below 0x80 (the decoder's nibble normalisation depends on it); (R8.loop) every Decode<X> walks its optional part with `for buffer.Len() > 0`, one IEI octet per iteration and the one uniform half-octet normalisation (deviant detection across the 45 siblings). (R8.fresh) PlainNasEncode returns the contents of a buffer created by the same call and retained nowhere (no pool, cache or package-level scratch buffer whose reuse would change an earlier result); (R9.acc.*) the accessors of the 151 IE value types, as in C09: Get/Set pairs address the same octets and bits, SetLen stores the length it is given and sizes Buffer to exactly that many octets (the decoder relies on both). NOT decided: equality for particular values (e.g. capacity limits of fixed arrays, Len fields that disagree with the buffer they describe)."
+	c.Explanation = "Static pairing check of the generated NAS codec (C08), on the AST + types of all 45 message files. Decided: (R8.dispatch) each of the 44 message-type constants has exactly one case in the decode and one in the encode switch of its family, the decode case allocates New<X> into field <X> and calls Decode<X>, the encode case calls Encode<X> of the same message, both switches end in an error default, an unknown EPD is an error, and a message of exactly its header octets (3 for 5GMM, 4 for 5GSM: one without further mandatory IEs) still reaches the codec of every message type; (R8.mand) the mandatory part of Encode<X> and Decode<X> is the same sequence of (IE, Len/Value) tokens, covers every non-pointer field of the struct in declaration order, and every length-prefixed buffer is sized (SetLen) before it is read; (R8.opt) every optional IE has exactly one `if a.F != nil` block in Encode<X> and one case in Decode<X> keyed by its own <X><F>Type constant, the two sides use the same format (half-octet / TV / TLV), the constructor is New<F>, length-prefixed fixed arrays are sliced by Len on both sides, IEI constants are pairwise distinct within a message and half-octet IEIs are 8..15 while full IEIs are below 0x80 (the decoder's nibble normalisation depends on it); (R8.loop) every Decode<X> walks its optional part with `for buffer.Len() > 0`, one IEI octet per iteration and the one uniform half-octet normalisation (deviant detection across the 45 siblings). (R8.fresh) PlainNasEncode returns the contents of a buffer created by the same call and retained nowhere (no pool, cache or package-level scratch buffer whose reuse would change an earlier result); (R9.acc.*) the accessors of the 151 IE value types, as in C09: Get/Set pairs address the same octets and bits, SetLen stores the length it is given and sizes Buffer to exactly that many octets (the decoder relies on both). NOT decided: equality for particular values (e.g. capacity limits of fixed arrays, Len fields that disagree with the buffer they describe)."
 	c.Assumptions = []string{"encoding/binary.Write/Read move exactly the octets of the operand they are given"}
 	m := buildNasModel(c)
 	if len(m.Msgs) < 40 {
